@@ -1,3 +1,4 @@
 import Norad.Props.C11
 import Norad.Props.C06
 import Norad.Props.C08
+import Norad.Props.C17
